@@ -604,11 +604,13 @@ func AppendFunction(name string) ZlispUserFunction {
 		case *SexpArray:
 			switch name {
 			case "append":
-				return &SexpArray{Val: append(t.Val, args[1]), Env: env, Typ: t.Typ}, nil
+				val, used := appendNoAlias(t, args[1])
+				return &SexpArray{Val: val, used: used, Env: env, Typ: t.Typ}, nil
 			case "appendslice":
 				switch sl := args[1].(type) {
 				case *SexpArray:
-					return &SexpArray{Val: append(t.Val, sl.Val...), Env: env, Typ: t.Typ}, nil
+					val, used := appendNoAlias(t, sl.Val...)
+					return &SexpArray{Val: val, used: used, Env: env, Typ: t.Typ}, nil
 				default:
 					return SexpNull, fmt.Errorf("Second argument of appendslice must be slice")
 				}
